@@ -461,15 +461,18 @@ class Inotify:
         """Adds watches for the given directory and all its sub-directories,
         ignoring those that vanish meanwhile.
         """
+        # IN_ONLYDIR: by the time we get here the name may belong to something else (the directory
+        # was renamed or moved away again and a file took the name); never watch that by accident.
+        mask = self._event_mask | InotifyConstants.IN_ONLYDIR
         with contextlib.suppress(OSError):
-            self._add_watch(path, self._event_mask)
+            self._add_watch(path, mask)
         for root, dirnames, _ in os.walk(path, followlinks=self._follow_symlink):
             for dirname in dirnames:
                 full_path = os.path.join(root, dirname)
                 if not self._follow_symlink and os.path.islink(full_path):
                     continue
                 with contextlib.suppress(OSError):
-                    self._add_watch(full_path, self._event_mask)
+                    self._add_watch(full_path, mask)
 
     def _remove_tree_watches(self, path: bytes) -> None:
         """Removes the watches for the given directory and everything below it."""
